@@ -35,8 +35,9 @@ RULE = (
     "heights {ratio, shift} x tree prior {none, coalescent constant / exponential / skyride / skygrid / "
     "piecewise-linear / piecewise-exponential, birth-death constant / bdsk} with --grid/--cutoff where the CLI "
     "requires them] = 1980 model tuples, each pushed through the four sub-commands advi / map / mcmc / hmc "
-    "(7920 configurations) on a generated data set (4-6 dated taxa, 20-60 sites; nucleotide, codon-length or "
-    "amino-acid). Sub-check 'pairwise' draws, with Hypothesis, one sub-command + a core tuple + any subset of "
+    "(7920 configurations) on a generated data set (4-6 dated taxa on a generated clock-like tree, 20-66 sites; "
+    "nucleotide, codon-length or amino-acid, with ambiguity codes and gaps; the 61-state MG94 tuples use 4 taxa x 9 "
+    "codons), three data sets per data type and VERIF_SEED. Sub-check 'pairwise' draws, with Hypothesis, one sub-command + a core tuple + any subset of "
     "the remaining documented options (frequencies, branch-length / height / rate / coalescent initialisation, "
     "--keep, --dates, date regex/format, tip states / ambiguities / path, traits, GMRF variants, variational "
     "family / distribution / sample sizes / divergence, HMC integrator / mass matrix / adaptors / split / join, "
@@ -483,10 +484,6 @@ def exc_kind(stage, e):
     r = root_exc(e)
     fr = impl_frame(r) or ("torch.autograd" if in_autograd(r) else "?")
     return "%s:%s@%s:%s" % (stage, type(r).__name__, fr, mask(r))
-
-
-class _Ret:
-    pass
 
 
 _PLUGINS_SCANNED = []
@@ -1234,7 +1231,7 @@ def expand_core(c):
     return {
         "cmds": list(CMDS),
         "opts": core_opts(model, C, I, clock, heights, tuple(prior) if prior else None),
-        # the 61-state model costs a second per tuple on 6 taxa x 18 codons: 4 taxa x 7 codons in the enumeration
+        # the 61-state model costs a second per tuple on 6 taxa x 22 codons: 4 taxa x 9 codons in the enumeration
         "data": seeded_dataset(kind, c["k"] % NDATA, small=(model == "MG94")),
         "torch_seed": c["k"],
     }
